@@ -65,7 +65,7 @@ def build(mido, tpb, specs, type_=1):
         for t in f.tracks:
             tr = mido.MidiTrack()
             for m in t:
-                cls = MyMeta if m.is_meta else MyMsg
+                cls = MyMeta if isinstance(m, mido.MetaMessage) else MyMsg
                 x = cls.__new__(cls)
                 vars(x).update(vars(m))
                 tr.append(x)
@@ -123,7 +123,8 @@ def exact_schedule(mido, f):
 def nosig(m):
     d = dict(vars(m))
     d.pop('time', None)
-    kind = 'MetaMessage' if getattr(m, 'is_meta', False) else 'Message'
+    kind = 'MetaMessage' if 'Meta' in type(m).__name__ or any(
+        'Meta' in b.__name__ for b in type(m).__mro__) else 'Message'
     return (kind, tuple(sorted(d.items())))
 
 
